@@ -61,10 +61,10 @@ CHECKS = {
              "every input (and every base record with the invariants), under one side condition (no '/', '?', '\\\\' between a '[' and the next ']' behind the credentials - there "
              "get_host_delimiter_location and the Standard's host state stop at different places and both fail later; "
              "bracket_condition_plain: any input without '[' satisfies it; file URLs are free of it) and with "
-             "ada::idna::to_ascii as a parameter; "
-             "the url_aggregator instantiation of the state machine are compared "
-             "with the Spec, not modelled (their building blocks - path builder, scheme lookup, fast path, can_parse "
-             "scanner in C08, parse_host and the IP kernels in C10, the aggregator's editors in C07 - are). Spec.parse is a hand transcription of the Standard (trusted, validated by WPT). "
+             "ada::idna::to_ascii as a parameter; aggregator_parser_no_base_partial - through C04.parse_agrees the default "
+             "type's parser without a base leaves the layout (bytes and eight offsets) of Spec.parse's record; with a base "
+             "the url_aggregator instantiation of the state machine is modelled and compared call by call (C04), not yet "
+             "proved. Spec.parse is a hand transcription of the Standard (trusted, validated by WPT). "
              "IDNA answers inside the Spec come from ada::idna (C06)."),
 
     "C03": dict(
@@ -91,12 +91,11 @@ CHECKS = {
              "generated histories (all getters, origin, flags), failed steps are checked to leave every observable "
              "unchanged, and relative references are resolved against the object a history leaves behind.",
         design_ref="DESIGN.md §5 C03",
-        note="partial: nine of the ten setters are modelled statement by statement on both C++ types and proved end to end, "
+        note="partial: all ten setters are modelled statement by statement on both C++ types and proved end to end, "
              "the host setters under the bracket side condition (and, on the aggregator, for records whose file host is "
              "present and whose text behind the credentials does not start with '@'); set_href is proved end to end on "
-             "ada::url (url_set_href_end_to_end_partial: it is the parser of C01 plus the size checks, same side "
-             "condition; replayed on every real set_href step), for url_aggregator::set_href "
-             "conformance rests on the correspondence with the validated Spec (differential)."),
+             "both types (url_set_href_end_to_end_partial, aggregator_set_href_end_to_end_partial: it is the parser of C01 / "
+             "C04 plus the size checks, same side condition; replayed on every real set_href step and in the editor run)."),
     "C04": dict(
         technique="Lean 4 proof that the model of ada::url (get_href fast/general path, get_href_size, get_components) "
                   "computes the aggregator's layout for the same content; model tied to the real ada::url on every state; "
@@ -107,17 +106,28 @@ CHECKS = {
              "aggregator's eight offsets (false on the pinned tree, provable after fixes 32af07f/b6b9d92). The model is "
              "evaluated by the Lean driver on the field values of every real ada::url state and must give the real href, "
              "size and components. Setters: username_agrees / password_agrees / port_agrees / search_agrees / "
-             "hash_agrees / pathname_agrees / protocol_agrees / host_agrees_partial - for every record satisfying the invariants of C19, every value and every limit, the model of "
+             "hash_agrees / pathname_agrees / protocol_agrees / host_agrees_partial / href_agrees - for every record satisfying the invariants of C19, every value and every limit, the model of "
              "ada::url's setter viewed through the layout equals the model of url_aggregator's setter (same buffer, same "
-             "offsets, same return value); both setter models are replayed against the real calls. The same (input, "
+             "offsets, same return value); both setter models are replayed against the real calls. Parser: parse_agrees - "
+             "Model/ParseAgg.lean transcribes the url_aggregator branches of parse_url_impl (parse_scheme_with_colon<false>, "
+             "append_base_username/password in the AUTHORITY loop, parse_host, parse_port, update_base_pathname, "
+             "consume_prepared_path, update_base_search, update_unencoded_base_hash, opaque path, set_protocol_as_file, the "
+             "localhost rule through get_hostname()) and for every input without a base the buffer and eight offsets it builds "
+             "are the layout of the fields the ada::url instantiation computes, failures included (Lemmas/ParseAgg.lean, 660 "
+             "lines: every editor call commutes with the layout, the loop invariant is 'the buffer is the layout of the "
+             "credentials so far'; no side condition on the input); parse_agrees_limited - also under a configured maximum "
+             "length (buffer.size() = get_href_size() on parsed records). With a base the aggregator branches (copy_scheme, "
+             "update_base_authority, update_host_to_base_host, port / path / search copies, shorten_path on the view, "
+             "clear_pathname, append_base_pathname) are modelled (machineBA) and run against ada::parse<url_aggregator>(input, "
+             "&base) on the real base object's buffer and offsets; their proof is not done. The same (input, "
              "base, history) is applied to ada::url_aggregator and ada::url; after "
              "every operation return value and every observable incl. host kind, opaque flag, href size and the eight "
              "offsets are compared pairwise.",
         design_ref="DESIGN.md §5 C04, §11.3", category="proof",
-        note="Nine setters are modelled on both types and proved to agree (set_host / set_hostname under the bracket side "
-             "condition of C03); for set_href "
-             "the agreement of the two types is decided by the lock-step run (differential, "
-             "generator-bounded) and by C03's comparison of each type with the Spec."),
+        note="All ten setters are modelled on both types and proved to agree (set_host / set_hostname / set_href under the "
+             "bracket side condition of C03/C01); the parser is proved to agree without a base; with a base the aggregator's "
+             "parser is modelled and compared (L1), and the agreement of the two types is additionally decided by the "
+             "lock-step run (differential, generator-bounded)."),
     "C05": dict(
         technique="Lean 4 proof of the property on the Spec parser: every parse result is a canonical record and every "
                   "canonical record re-parses from its href to itself (all inputs, all parsed bases), plus the plain-ASCII "
